@@ -21,12 +21,14 @@ Judge(r) ==
                             /\ \A i \in 1..NF : r.post[i].locked = r.op[i].lock /\ r.post[i].val = r.op[i].val
     [] r.kind = "fill"   -> /\ States(r)
                             /\ OpValid(r.op)
+                            /\ (r.opkind = "refill" => r.op = ExportOp(r.pre))     \* the harness built the refill from the real export
                             /\ CASE r.result = "ok"   -> FillAllowed(r.pre, r.op, r.post)
                                   [] r.result = "noop" -> ~MustChange(r.pre, r.op) /\ r.post = r.pre
                                   [] OTHER             -> FALSE
     [] r.kind = "sample" -> r.result \in {"ok", "noop"} /\ r.post = r.pre
     [] OTHER -> FALSE
 
-RecordOK == l <= Len(Trace) => Judge(Trace[l])
+(* a rejected record is printed (its index) instead of stopping TLC, so that one pass judges every record *)
+RecordOK == l <= Len(Trace) => IF Judge(Trace[l]) THEN TRUE ELSE PrintT(<<"REJECT", ToJson(l)>>)
 TraceAccepted == TLCGet("stats").diameter = Len(Trace) + 1
 =============================================================================
